@@ -871,6 +871,27 @@ fn gen_bits<V>(r: &mut Rng, d: u32, mk: impl Fn(usize) -> V, set: impl Fn(&mut V
 	v
 }
 bits_uni!(u8, 1; u16, 2; u32, 4; u64, 8);
+/// BitBox: the same wire format through its own Decode impl
+impl Uni for bitvec::boxed::BitBox<u8, Msb0> {
+	fn desc() -> String { <BitVec<u8, Msb0> as Uni>::desc() }
+	fn gen(r: &mut Rng, d: u32) -> Self { <BitVec<u8, Msb0> as Uni>::gen(r, d).into_boxed_bitslice() }
+	fn val(&self) -> String { bits_val(self.len(), self.iter().map(|b| *b)) }
+	fn same(&self, o: &Self) -> bool { self == o }
+	fn payload(&self) -> u128 { ((self.len() + 7) / 8) as u128 }
+	fn mem_rate() -> usize { 3 }
+	fn mem_allow() -> usize { 16384 }
+	fn min_wire() -> usize { 1 }
+}
+impl Uni for bitvec::boxed::BitBox<u32, Lsb0> {
+	fn desc() -> String { <BitVec<u32, Lsb0> as Uni>::desc() }
+	fn gen(r: &mut Rng, d: u32) -> Self { <BitVec<u32, Lsb0> as Uni>::gen(r, d).into_boxed_bitslice() }
+	fn val(&self) -> String { bits_val(self.len(), self.iter().map(|b| *b)) }
+	fn same(&self, o: &Self) -> bool { self == o }
+	fn payload(&self) -> u128 { ((self.len() + 31) / 32 * 4) as u128 }
+	fn mem_rate() -> usize { 3 }
+	fn mem_allow() -> usize { 16384 }
+	fn min_wire() -> usize { 1 }
+}
 
 impl Uni for bytes::Bytes {
 	fn desc() -> String {
@@ -1191,6 +1212,41 @@ impl Uni for EN {
 			EN::Q => "(VVar 1 VUnit)".into(),
 			EN::R { b, c } => format!("(VVar 2 {})", nest("VPair", "VUnit", &[b.val(), c.val()])),
 		}
+	}
+	fn same(&self, o: &Self) -> bool {
+		self == o
+	}
+	fn min_wire() -> usize {
+		1
+	}
+}
+/// a field-less enum with a skipped variant before positional ones
+#[derive(Encode, Decode, DecodeWithMemTracking, MaxEncodedLen, Debug, PartialEq, Clone, Copy)]
+pub enum FS {
+	A,
+	#[codec(skip)]
+	#[allow(dead_code)]
+	S,
+	B,
+	#[codec(index = 0x10)]
+	H,
+	C,
+}
+impl Uni for FS {
+	fn desc() -> String {
+		"(TEnum (VsCons 0 TUnit (VsCons 1 TUnit (VsCons 16 TUnit (VsCons 3 TUnit VsNil)))))".into()
+	}
+	fn gen(r: &mut Rng, _d: u32) -> Self {
+		*r.pick(&[FS::A, FS::B, FS::H, FS::C])
+	}
+	fn val(&self) -> String {
+		format!("(VVar {} VUnit)", match self {
+			FS::A => 0,
+			FS::B => 1,
+			FS::H => 2,
+			FS::C => 3,
+			FS::S => 99,
+		})
 	}
 	fn same(&self, o: &Self) -> bool {
 		self == o
